@@ -42,7 +42,9 @@ def _run_case(case):
         if c07w.sampled(case, 0) and not case.get("large"):      # (the structural tie of two-node systems is carried by the small cases)
             ob["w"] = c07w.real_side(case, sysd, mode_of(case.get("mode", "expm")), svd, S.make_algo, S.rtree_json)
         # --- end C07W hook ---
-        ob["psi0_dev"] = float(np.max(np.abs(ob["measure"][0]["vec"] - psi0))) if ob["measure"] else None
+        # (a state that was multiplied by 2^sexp > 1 is judged in units of that factor: the same state, the same tolerance)
+        ob["psi0_dev"] = (float(np.max(np.abs(ob["measure"][0]["vec"] - psi0))) / max(1.0, 2.0 ** case.get("sexp", 0))
+                          if ob["measure"] else None)
         if "exception" not in ob and case["sub"] == "twonode":
             devs = []
             prop = propagator_herm(sysd["H"])
